@@ -9,7 +9,7 @@ from checks.common import swarm
 ID = 'C14'
 LEVEL = 'exploration'
 NEEDS = ('threads', 'proc')
-QUICK = dict(runs=1200, wall=85)
+QUICK = dict(runs=4000, wall=85)
 THOROUGH = dict(runs=80000, wall=1800)
 RULE = ('op sequences (4-25 ops) on list / dict / Namespace / Value / custom-class proxies, each op issued by a generated party: the driver '
         'process, a client process, or a second thread inside the client process (own connection), all holding proxies of the same hosted '
